@@ -25,7 +25,65 @@ def run(ctx):
         refine.refine_batch(ctx, ctx.size(120, 1500), force=FORCE, pid=PID, name="trace-refinement(Tree.step vs DemeTree.run)"),
         runs.monitor_batch(ctx, PID, ctx.size(250, 3000), force=FORCE),
         _r5s(ctx, ctx.size(150, 3000), 5),
+        observed_twins(ctx, ctx.size(60, 800), 71),
     ]
+
+
+def _observed_worker(spec):
+    from ..common import RunTimeout, is_env_crash, run_limit
+
+    try:
+        with run_limit():
+            a = runs.plain_run(spec)
+            b = runs.plain_run(spec, observe=True)
+    except RunTimeout as e:
+        return {"status": "crash", "detail": f"run did not terminate: {e}"}
+    except Exception as e:  # noqa: BLE001
+        return {"status": "env" if is_env_crash(e) else "crash", "detail": f"{type(e).__name__}: {e}"}
+    diff = None
+    if repr(a) != repr(b):  # repr: NaN-safe
+        if len(a["demes"]) != len(b["demes"]) or a["n_evals"] != b["n_evals"]:
+            diff = f"{len(a['demes'])} demes / {a['n_evals']} evaluations unobserved, {len(b['demes'])} / {b['n_evals']} when looked at after every metaepoch"
+        elif repr(a["centroids"]) != repr(b["centroids"]):
+            k = next(i for i, (x, y) in enumerate(zip(a["centroids"], b["centroids"])) if repr(x) != repr(y))
+            diff = f"deme {a['centroids'][k][0]} reports centroid {b['centroids'][k][1]} after having been looked at, {a['centroids'][k][1]} otherwise"
+        else:
+            k = next((d["id"] for d, e in zip(a["demes"], b["demes"]) if repr(d) != repr(e)), "?")
+            diff = f"deme {k} (or the report) differs between the observed and the unobserved run"
+    return {"status": "ok", "diff": diff, "demes": len(a["demes"])}
+
+
+def observed_twins(ctx, n, salt):
+    """looking at a tree does not change it: a seeded run during which every report and query accessor is
+    read after every metaepoch ends in the same tree (and reports the same centroids) as the same run
+    left alone"""
+    from ..common import Slice, pmap
+
+    sl = Slice("observed-vs-unobserved-twin-runs(all reports and accessors read after every metaepoch)")
+    sl.is_trace = True
+    rng = ctx.rng(salt)
+    n = ctx.boost(n) if hasattr(ctx, "boost") else n
+    specs = []
+    for i in range(n):
+        spec = runs.rand_spec(rng, max_steps=int(rng.integers(3, 8)))
+        if spec["gsc"]["kind"] == "User":
+            spec["gsc"]["look"] = False
+        specs.append(spec)
+    for i, (spec, r) in enumerate(zip(specs, pmap(_observed_worker, specs, chunksize=2))):
+        if r["status"] == "env":
+            sl.skipped += 1
+            continue
+        if r["status"] == "crash":
+            sl.violations.append({"signature": "C20/run-crashed", "detail": r["detail"], "replay": {"spec": spec}})
+            continue
+        sl.cases += 1
+        if r["demes"] >= 2:
+            sl.nontrivial.add(runs.spec_id(spec))
+        if r["diff"]:
+            sl.violations.append({"signature": "C20/looking-changes-the-run", "detail": r["diff"], "replay": {"spec": spec, "describe": runs.describe(spec)}})
+        if i < 1:
+            sl.sample(runs.describe(spec))
+    return sl
 
 
 def _r5s(ctx, n, salt):
